@@ -187,6 +187,25 @@ Theorem C08_useafter_checked : forall T S wv, discipline_ok S T wv = true ->
 Proof. exact useafter_checked. Qed.
 Print Assumptions C08_useafter_checked.
 
+(* Borrowed captures.  The enqueue of a functor orders what the poster did BEFORE it ahead of the functor's run
+   (C08_publish_by_enqueue: an owned copy is safe; here hb tr 0 3) - not what the poster does after the post returns:
+   rewriting / freeing memory the functor only borrowed (a StringPiece's bytes, a raw pointer, the raw `this`) and the
+   functor's read are a conflicting pair unordered by happens-before. *)
+Theorem C08_borrowed_after_post_refuted :
+  exists tr i j, wf_trace tr /\ conflicting tr i j /\ ~ hb tr i j /\ ~ hb tr j i /\ hb tr 0 3.
+Proof. exact borrowed_after_post_races. Qed.
+Print Assumptions C08_borrowed_after_post_refuted.
+
+(* the static rule is part of the obligation: on its cross-thread branch a root method binds only owned copies into the
+   functors it posts (no StringPiece / raw pointer / std::ref; no raw `this` of a shared_ptr-managed class unless the
+   table justifies it) - or that is a recorded finding *)
+Theorem C08_borrow_checked : forall T S wv, discipline_ok S T wv = true ->
+  forall m k pa kind, In m S -> contract_of T (m_class m) (m_name m) = Some k ->
+    In pa (m_postargs m) -> borrow_kind T (m_class m) (m_name m) pa (ctx_of_contract k) = Some kind ->
+    exists w, In w wv /\ v_class w = m_class m /\ v_site w = m_name m /\ v_what w = pa_callee pa /\ v_kind w = kind.
+Proof. exact borrow_checked. Qed.
+Print Assumptions C08_borrow_checked.
+
 (* every recorded finding is still present (a waiver that no longer matches anything must be removed) - NOT a theorem:
    a repaired tree must not raise an alarm; bin/check reports stale waivers as a note. *)
 
